@@ -800,6 +800,25 @@ fn run_processor(tasks: &[Vec<(usize, u8)>], idents: &[(usize, usize, usize, usi
             .collect::<Vec<_>>()
             .join("|")
     };
+    // into_process_state copies symbol_provider.stats() into the ProcessState AFTER the join_all over the thread walks: the
+    // leaf name of every module one of this processing's frames lies in must be there (C12/ProcProofs.v)
+    let stats_obs = |st: &minidump_processor::ProcessState| -> Option<String> {
+        for cs in &st.threads {
+            for f in &cs.frames {
+                if let Some(m) = &f.module {
+                    let cf = m.code_file().to_string();
+                    let leaf = cf.rsplit(|c| c == '/' || c == '\\').next().unwrap_or("").to_string();
+                    if !st.symbol_stats.contains_key(&leaf) {
+                        return Some(format!(
+                            "ProcessState.symbol_stats has no entry for {} although a frame of this processing lies in that module",
+                            leaf
+                        ));
+                    }
+                }
+            }
+        }
+        None
+    };
     let mut status = "OK";
     let mut obs = "-".to_string();
     let mut rows: Vec<String> = vec![];
@@ -833,7 +852,12 @@ fn run_processor(tasks: &[Vec<(usize, u8)>], idents: &[(usize, usize, usize, usi
         // the frames are rendered by one more (sequential) pass over the now fully cached symbolizer
         let st = futures_util::FutureExt::now_or_never(minidump_processor::process_minidump(&*dump, &*sym));
         match st {
-            Some(Ok(st)) => rows.push(render(&st)),
+            Some(Ok(st)) => {
+                if let Some(o) = stats_obs(&st) {
+                    obs = o;
+                }
+                rows.push(render(&st))
+            }
             Some(Err(e)) => obs = format!("process_minidump failed: {:?}", e),
             None => obs = "a lookup suspended although every module had been located".to_string(),
         }
@@ -858,7 +882,12 @@ fn run_processor(tasks: &[Vec<(usize, u8)>], idents: &[(usize, usize, usize, usi
             if let Poll::Ready(v) = root.as_mut().poll(&mut cx) {
                 for r in v {
                     match r {
-                        Ok(st) => rows.push(render(&st)),
+                        Ok(st) => {
+                            if let Some(o) = stats_obs(&st) {
+                                obs = o;
+                            }
+                            rows.push(render(&st))
+                        }
                         Err(e) => obs = format!("process_minidump failed: {:?}", e),
                     }
                 }
